@@ -30,7 +30,9 @@ STDLIB_AXIOMS = {
 }
 
 
-class CaseTimeout(Exception):
+class CaseTimeout(BaseException):
+    # not an Exception: the harnesses record what the implementation raises with `except Exception`, and a budget overrun
+    # recorded as one more observation would let a case spin for ever (the timers are one-shot otherwise: they repeat)
     pass
 
 
@@ -310,7 +312,7 @@ def run_impl(h, case):
     # the budget is CPU time of this process (a loaded machine must not turn into an alarm); wall clock is only a backstop
     signal.signal(signal.SIGPROF, _alarm)
     signal.signal(signal.SIGALRM, _alarm)
-    signal.setitimer(signal.ITIMER_PROF, h.CASE_TIMEOUT)
+    signal.setitimer(signal.ITIMER_PROF, h.CASE_TIMEOUT, max(1.0, h.CASE_TIMEOUT / 4.0))
     signal.alarm(h.CASE_TIMEOUT * 15)
     try:
         obs = h.execute(case)
